@@ -4,7 +4,7 @@
   sends nothing, and leaves the set of known devices unchanged".
 
   `wellFormed` says which datagrams an endpoint dispatches (it does not depend on the tracker
-  state); `ok` judges one observation of the implementation handling one datagram.
+  state; the clock value only travels into the `_timestamp` metadata, which no test reads); `ok` judges one observation of the implementation handling one datagram.
   Import-free apart from the receive-path model's data types and pure classifiers.
 -/
 import Upnp.Model.C02Recv
@@ -16,8 +16,8 @@ def firesSearch (cfg : Cfg) (h : Hdrs) : Bool :=
 
 /-- Is this datagram, from this sender, a well-formed message for the endpoint?
     gate ∧ decodable ∧ the endpoint's own validity test (and, for the responder, a matching target). -/
-def wellFormed (cfg : Cfg) (ep : Endpoint) (data : Bytes) (loc : Option Addr) (src : Addr) : Bool :=
-  match protocolRecv Fixes.all cfg.prefixes data loc src 0 with
+def wellFormed (cfg : Cfg) (ep : Endpoint) (data : Bytes) (loc : Option Addr) (src : Addr) (now : Int) : Bool :=
+  match protocolRecv Fixes.all cfg.prefixes data loc src now with
   | .ok (some (rl, h)) =>
     (match ep with
      | .adv => (advClassify h).isSome
